@@ -8,7 +8,6 @@ and random fair schedules otherwise (`run`); `numpy.array_split` chunking is com
 Property oracles (implementation only): ordered/complete results, determinism across completion orders,
 "error, never a result, never a hang" for every effective fault, `Analysis.do_trials` order.
 """
-import ast
 import itertools
 
 from harness.core import MachineryError
@@ -18,49 +17,6 @@ MODEL_MODULES = ['SkyllhModel.Model.Par', 'SkyllhModel.Model.ParStatus']
 
 SLOW = 0.03          # a slow process sleeps this long before its first task
 FAULT_DELAY = 0.06   # a late fault / a fault after the result has been flushed to the pipe
-
-
-# ------------------------------------------------------------------------------------------
-# generated constants: structural facts of the gather loop read from the current source
-
-def _scan_source():
-    from harness import extract
-    tree = extract.parse('skyllh/core/multiproc.py')
-    fn = extract.find_func(tree, 'parallelize')
-    if fn is None:
-        raise LookupError('parallelize not found')
-    blocking = 0
-    for node in ast.walk(fn):
-        if isinstance(node, ast.Call) and isinstance(node.func, ast.Attribute) and node.func.attr == 'get':
-            recv = node.func.value
-            if isinstance(recv, ast.Name) and recv.id == 'squeue':
-                continue      # status queue, only read while `not squeue.empty()`
-            if isinstance(recv, ast.Name) and recv.id in ('kwargs', 'os', 'environ'):
-                continue
-            if isinstance(recv, ast.Attribute) and recv.attr == 'environ':
-                continue
-            kws = {k.arg for k in node.keywords}
-            if not node.args and not ({'block', 'timeout'} & kws):
-                blocking += 1
-    hooks = sum(1 for node in ast.walk(fn) if isinstance(node, ast.Call) and isinstance(node.func, ast.Name)
-                and node.func.id == '_verif_point')
-    return blocking, hooks
-
-
-def generated(ctx):
-    try:
-        blocking, hooks = _scan_source()
-    except Exception as e:  # noqa
-        blocking, hooks = 0, 2
-        ctx.proof['generated_fallbacks'].append('C09 source scan')
-        ctx.note('C09: source scan of parallelize failed (%s); recorded values used' % e)
-    return ('/- generated by harness/props/c09.py from skyllh/core/multiproc.py — do not edit -/\n'
-            'namespace Gen.C09\n'
-            '/-- queue `get()` calls of the master in `parallelize` that can block for ever (no `block=False`, no `timeout`) -/\n'
-            'def blockingGets : Nat := %d\n'
-            '/-- guarded verification hook call sites in `worker_wrapper` -/\n'
-            'def hookPoints : Nat := %d\n'
-            'end Gen.C09\n' % (blocking, hooks))
 
 
 # ------------------------------------------------------------------------------------------
@@ -75,11 +31,13 @@ def entry(where, pid, task, *actions):
     return {'where': where, 'pid': pid, 'task': task, 'actions': [list(a) for a in actions]}
 
 
-def make_case(ncpu, n, slow=(), fault=None, seed=None, logs=True, variant='fast', api='parallelize'):
+def make_case(ncpu, n, slow=(), fault=None, seed=None, logs=True, variant='fast', api='parallelize', faults=None, rsize=0,
+              late_sentinel=()):
     """slow: pids (0 = master) that sleep before their first task (a child without tasks sleeps between the
     result and the log sentinel instead).
-    fault: None | {pid, point: 'task'|'queued', t, kind: 'raise'|'exit', code, flushed: bool, late: bool}"""
-    ks = chunk_sizes(n, ncpu)
+    fault: None | {pid, point: 'task'|'queued', t, kind: 'raise'|'exit', code, flushed: bool, late: bool}; faults: several;
+    rsize: payload bytes per result; late_sentinel: children that sleep between rqueue.put and the log sentinel"""
+    ks = chunk_sizes(n, max(ncpu, 1))
     plan, msleep = [], {}
     for p in sorted(slow):
         if p == 0:
@@ -90,19 +48,21 @@ def make_case(ncpu, n, slow=(), fault=None, seed=None, logs=True, variant='fast'
                 plan.append(entry('task', p, 0, ('sleep', SLOW)))
             else:
                 plan.append(entry('queued', p, None, ('sleep', SLOW)))
-    if fault is not None:
+    for p in sorted(late_sentinel):
+        plan.append(entry('queued', p, None, ('sleep', SLOW)))
+    for fault in ([fault] if fault is not None else []) + list(faults or []):
         act = ('raise', 'injected fault') if fault['kind'] == 'raise' else ('exit', int(fault.get('code', 3)))
         pre = []
         if fault['point'] == 'queued':
             if fault.get('flushed', True) or fault.get('late'):
-                pre = [('sleep', FAULT_DELAY)]
+                pre = [('sleep', fault.get('delay', FAULT_DELAY))]
             plan.append(entry('queued', fault['pid'], None, *(pre + [act])))
         else:
             if fault.get('late'):
                 pre = [('sleep', FAULT_DELAY)]
             plan.append(entry('task', fault['pid'], fault['t'], *(pre + [act])))
     return {'api': api, 'ncpu': ncpu, 'n': n, 'seed': seed, 'plan': plan, 'msleep': msleep, 'boom': [],
-            'logs': bool(logs), 'variant': variant}
+            'logs': bool(logs), 'variant': variant, 'rsize': int(rsize)}
 
 
 def _fault_actions(case):
@@ -122,6 +82,8 @@ def _fault_actions(case):
 def expects_error(case):
     """Does a worker raise or die in this case?  (independent of the Lean model)"""
     ncpu, n = case['ncpu'], case['n']
+    if ncpu < 1:
+        return True     # not a worker count: has to be rejected
     if any(0 <= int(i) < n for i in case.get('boom') or []):
         return True
     if ncpu == 1:
@@ -133,6 +95,9 @@ def expects_error(case):
     return False
 
 
+PIPE_BUF = 65536
+
+
 def fault_class(case):
     pre = ''
     if case.get('interactive'):
@@ -141,6 +106,17 @@ def fault_class(case):
         pre = 'repeat-'
     elif case['n'] > 1000:
         pre = 'large-'
+    elif case.get('api') == 'do_trials' and case['n'] == 0:
+        pre = 'n0-'
+    elif case['ncpu'] < 1:
+        pre = 'bad-ncpu-'
+    fa = _fault_actions(case)
+    if int(case.get('rsize') or 0) >= PIPE_BUF:
+        if fa and all(w == 'queued' and a == 'exit' for (_, w, _, a, _, _) in fa):
+            return pre + 'bigres-exit-at-queued'
+        pre += 'bigres-'
+    if len(fa) > 1:
+        pre += 'multi-'
     return pre + _fault_class(case)
 
 
@@ -159,6 +135,8 @@ def model_fault_specs(case):
     """fault tokens for the driver (a list of alternatives, all of which are possible for this plan);
     None when the case has a fault the model does not cover (function raising in the master's chunk)."""
     ncpu, n = case['ncpu'], case['n']
+    if ncpu < 1:
+        return None
     ks = chunk_sizes(n, ncpu)
     starts = [sum(ks[:p]) for p in range(ncpu)]
     specs = [[]]
@@ -177,6 +155,8 @@ def model_fault_specs(case):
                 code = 1 if a == 'raise' else v
                 # without a delay the result may or may not have reached the pipe before the exit
                 tok = ['%d:xq:%d:1' % (pid, code)] if delayed else ['%d:xq:%d:1' % (pid, code), '%d:xq:%d:0' % (pid, code)]
+                if a == 'exit' and int(case.get('rsize') or 0) >= PIPE_BUF:
+                    tok = tok + ['%d:xp:%d' % (pid, code)]      # only a part of the result has reached the pipe
             specs = [s + [t] for s in specs for t in tok]
     # the model has one fault slot per child: keep the first fault of each child
     out = []
@@ -217,10 +197,29 @@ def check_outcome(case, out, watchdog):
     if case.get('interactive'):
         what += ' in an interactive session (progress bar and status queue active)'
     if case.get('api') == 'repeat':
-        what = 'parallelize(ncpu=%d, %d tasks) called once per seed of %r on the same args_list object, fresh rss each time' % (
+        what = 'parallelize(ncpu=%d, %d tasks) called once per seed of %r (None: rss=None) on the same args_list object, fresh rss each time' % (
             case['ncpu'], n, case['seeds'])
+    if int(case.get('rsize') or 0):
+        what += ' with %d-byte results' % case['rsize']
     if out['out'] == 'timeout':
         return 'hang', '%s did not end within the watchdog time of %.0f s' % (what, float(case.get('watchdog') or watchdog))
+    if out['out'] == 'died':
+        return 'caller-died', '%s: the calling process died without an exception' % what
+    r = _check_outcome(case, out, what)
+    if r is None and out.get('alive'):
+        return 'children-left-behind', '%s: %d child process(es) still alive 1 s after the call %s' % (
+            what, out['alive'], 'returned' if out['out'] == 'done' else 'raised %s' % out.get('etype'))
+    return r
+
+
+# exception classes that are accidents of the implementation (a lookup / attribute / unpickling failure escaping from
+# parallelize), not the demanded loud failure; subclasses of RuntimeError, OSError, ValueError … are all accepted
+ACCIDENTAL = {'LookupError', 'AttributeError', 'TypeError', 'NameError', 'AssertionError', 'EOFError', 'UnpicklingError', 'Empty',
+              'SystemExit', 'KeyboardInterrupt', 'StopIteration'}
+
+
+def _check_outcome(case, out, what):
+    n = case['n']
     if case.get('api') == 'repeat':
         if out['out'] == 'error':
             return 'spurious-error', '%s raised %s: %s' % (what, out.get('etype'), out.get('msg'))
@@ -239,6 +238,10 @@ def check_outcome(case, out, watchdog):
     if out['out'] == 'error':
         if not exp_err:
             return 'spurious-error', '%s raised %s: %s although no worker failed' % (what, out.get('etype'), out.get('msg'))
+        acc = ACCIDENTAL & set(out.get('mro') or [out.get('etype')])
+        if acc:
+            return 'accidental-error', '%s ended with %s: %s — an accident of the implementation, not a reported worker failure' % (
+                what, out.get('etype'), out.get('msg'))
         return None
     if exp_err:
         return 'returns-despite-failure', '%s returned %d results although a worker raised or died' % (what, len(out['res']))
@@ -250,9 +253,13 @@ def check_outcome(case, out, watchdog):
     if len(res) != n:
         return 'wrong-result', '%s returned %d results for %d inputs' % (what, len(res), n)
     if case.get('api') == 'do_trials':
+        for i, r in enumerate(res):
+            if not (len(r) == 4 and r[2] == 7):
+                return 'wrong-result', '%s: row %d is %r (keyword argument k=7 not passed through)' % (what, i, r)
         return None
+    rs = int(case.get('rsize') or 0)
     for i, r in enumerate(res):
-        if not (isinstance(r, (tuple, list)) and len(r) == 4 and r[0] == i and r[1] == i * i + 3 * i):
+        if not (isinstance(r, (tuple, list)) and len(r) == (5 if rs else 4) and r[0] == i and r[1] == i * i + 3 * i and (not rs or r[4] == rs)):
             return 'wrong-result', '%s: result %d is %r, expected that of task %d (returned task order %s)' % (
                 what, i, r, i, [x[0] if isinstance(x, (tuple, list)) else x for x in res])
     return None
@@ -358,6 +365,18 @@ def late_worker_case():
     c = make_case(2, 8000, logs=False, variant='large-interactive-late-worker')
     c['plan'] = [entry('task', 1, 0, ('sleep', 0.5))]
     return dict(c, summary=True, interactive=True, watchdog=6.0)
+
+
+PARTIAL_WRITE_SIGNATURE = 'C09/parallelize/hang/bigres-exit-at-queued'
+
+
+def partial_write_case():
+    """2 processes, 4 tasks with 200 kB results, the master is busy for 0.5 s, the child is killed (os._exit(3)) 0.1 s after
+    rqueue.put: only the first 64 KiB of its result are in the pipe"""
+    c = make_case(2, 4, fault={'pid': 1, 'point': 'queued', 'kind': 'exit', 'code': 3, 'flushed': True, 'delay': 0.1}, rsize=200000,
+                  logs=False, variant='partial-write')
+    c['msleep'] = {0: 0.5}
+    return dict(c, watchdog=5.0)
 
 
 ORACLES = {'pmap': o_pmap, 'corr': o_corr, 'split': o_split}
@@ -489,11 +508,58 @@ def run(ctx):
     for ncpu, n in [(2, 20000)] + ([(4, 40000)] if ctx.thorough else []):
         groups.append([dict(make_case(ncpu, n, logs=False, variant='large-interactive'), summary=True, interactive=True, watchdog=6.0)])
     # … in an interactive session the master reads the status queue only while it works on its own chunk
-    if LATE_WORKER_SIGNATURE not in [sg for sg, _ in ctx.known_hits]:
-        groups.append([late_worker_case()])
+    groups.append([late_worker_case()])
+    # ---- review round: classes that were never exercised
+    # history "rss, then no rss" on the same args_list object (and a TimeLord only in the calls with rss)
+    for ncpu in range(1, NC + 1):
+        for n in (2, 6):
+            groups.append([{'api': 'repeat', 'ncpu': ncpu, 'n': n, 'seeds': [42, None, 42, None], 'tl': True, 'plan': [],
+                            'msleep': {}, 'boom': [], 'seed': None, 'logs': False, 'variant': 'repeat-none'}])
+    # results larger than the pipe buffer (what real callers return: splines, histograms), fault-free and with every fault kind;
+    # with a slow master the pipe holds only the first 64 KiB of the child's result when the child dies
+    sizes = [100000, 5000000] if ctx.thorough else [100000]
+    for rsize in sizes:
+        for ncpu in (2, 3):
+            n = 4
+            groups.append([make_case(ncpu, n, slow=sl, seed=21, rsize=rsize, variant='bigres') for sl in ([], [0], [1])])
+            for fault in _fault_grid(ncpu, n):
+                if fault['pid'] != 1:
+                    continue
+                groups.append([make_case(ncpu, n, fault=fault, rsize=rsize, variant='bigres-fault'),
+                               make_case(ncpu, n, slow=[0], fault=dict(fault, late=True), rsize=rsize, variant='bigres-fault-master-slow')])
+    groups.append([partial_write_case()])
+    groups.append([make_case(2, 4, slow=[0], rsize=5000000, variant='bigres-5MB')])
+    c = make_case(2, 4, rsize=2000000, variant='bigres-master-raises')
+    c['boom'] = [0]
+    groups.append([c])
+    # two faults in one run
+    for ncpu, n in [(3, 4), (3, 6), (4, 6)]:
+        fg = list(_fault_grid(ncpu, n))
+        for _ in range(ctx.n(8, 60)):
+            f1 = rng.choice([f for f in fg if f['pid'] == 1])
+            f2 = rng.choice([f for f in fg if f['pid'] == 2])
+            groups.append([make_case(ncpu, n, faults=[dict(f1, late=rng.random() < 0.5), dict(f2, late=rng.random() < 0.5)], variant='two-faults')])
+    # fault x interactive session, fault x do_trials
+    for ncpu, n in [(2, 3), (3, 6)]:
+        for fault in _fault_grid(ncpu, n):
+            groups.append([dict(make_case(ncpu, n, fault=fault, variant='fault-interactive'), interactive=True)])
+            groups.append([make_case(ncpu, n, fault=fault, seed=31, api='do_trials', variant='fault-do_trials')])
+    # a working child that is slow between rqueue.put and the log sentinel
+    for ncpu in range(2, NC + 1):
+        groups.append([make_case(ncpu, NT, late_sentinel=ls, seed=17, variant='late-sentinel')
+                       for ls in ([1], list(range(1, ncpu)), [ncpu - 1])])
+    # do_trials without trials; worker counts that are none
+    for ncpu in (1, 2):
+        groups.append([make_case(ncpu, 0, seed=3, api='do_trials', variant='do_trials-n0')])
+    for bad in (0, -1):
+        groups.append([make_case(bad, 3, variant='bad-ncpu')])
 
     flat = [c for g in groups for c in g]
     timeouts = {}
+    # classes with a listed open finding that has just been replayed are not run again (each hang costs its watchdog time)
+    for sg, _ in ctx.known_hits:
+        if '/hang/' in sg:
+            timeouts[('parallelize', sg.split('/hang/')[1])] = 2
 
     def on_result(case, out):
         if out['out'] == 'timeout':
@@ -503,6 +569,9 @@ def run(ctx):
     def stop(case):     # a class that already hung twice is not explored further (each hang costs the watchdog time)
         return timeouts.get((case.get('api'), fault_class(case)), 0) >= 2
 
+    for c in flat:
+        if int(c.get('rsize') or 0) >= PIPE_BUF and 'watchdog' not in c:
+            c['watchdog'] = 5.0
     try:
         outs = pf.run_cases(flat, timeout=W, stop=stop, on_result=on_result)
     except (OSError, EOFError, ValueError) as e:     # fork/pipe trouble of the harness itself is not a verdict
@@ -510,6 +579,14 @@ def run(ctx):
     by_id = {id(c): o for c, o in zip(flat, outs)}
     walls = [o['wall'] for o in outs if 'wall' in o]
     ctx.extra['max_wall_s_of_a_run'] = max(walls) if walls else None
+    # achieved completion orders (diagnostic): distinct arrival orders of the children's results per ncpu
+    arr = {}
+    for c, o in zip(flat, outs):
+        if o.get('out') == 'done' and c.get('api') == 'parallelize' and c['ncpu'] >= 2 and o.get('arrival'):
+            arr.setdefault(c['ncpu'], set()).add(tuple(o['arrival']))
+    ctx.extra['distinct_arrival_orders_by_ncpu'] = {str(k): len(v) for k, v in sorted(arr.items())}
+    ctx.extra['runs_with_caller_kwargs_altered'] = sum(1 for o in outs if any(o.get('kw_changed') or []))
+    ctx.extra['max_children_alive_after_call'] = max([o.get('alive') or 0 for o in outs] or [0])
     ctx.extra['watchdog_s'] = W
     ctx.extra['runs_skipped_after_repeated_hangs'] = sum(1 for o in outs if o['out'] == 'skipped')
 
@@ -540,7 +617,7 @@ def run(ctx):
         for c, o in zip(g, gouts):
             if o['out'] == 'skipped':
                 continue
-            ctx.case(key=(c['api'], c['ncpu'], c['n'], c['plan'], c['msleep'], c['boom'], c['seed'], c.get('seeds'), c.get('interactive')),
+            ctx.case(key=(c['api'], c['ncpu'], c['n'], c['plan'], c['msleep'], c['boom'], c['seed'], c.get('seeds'), c.get('interactive'), c.get('rsize')),
                      desc={'case': c, 'outcome': outcome_class(c, o), 'wall': o.get('wall')} if ctx.evaluations % 211 == 0 else None)
             ctx.count('run:%s:%s' % (c['api'], fault_class(c)))
             ctx.count('outcome:' + o['out'])
@@ -581,8 +658,7 @@ def run(ctx):
             want = [k for k in chunk_sizes(c['n'], c['ncpu']) if k]
             ctx.count('corr:observed-chunks')
             if runs != want:
-                ctx.violation('pmap', {'cases': [c]}, 'tasks were distributed over the processes as %r, array_split says %r' % (runs, want),
-                              signature='C09/parallelize/chunking', kind='schedule')
+                ctx.count('diag:observed-chunks-differ-from-array_split')     # diagnostic only: the property does not fix the distribution
 
 
 MANIFEST = dict(
